@@ -65,7 +65,21 @@ def run_histories(res, model, prop):
     for p in data["violations"]:
         rc2, so2, _, _ = run([binary, "replay", p], timeout=300)
         if rc2 != 1:
-            raise Machinery("history violation %s does not reproduce\n%s" % (p, so2))
+            # the discovery does not replay on its own: the subject may keep state between calls, so
+            # that what the exploration saw depended on the other histories run in the same process.
+            # Re-run the whole model instance single-threaded (deterministic order), twice.
+            a = run([binary, "instance", p], timeout=1800)
+            b = run([binary, "instance", p], timeout=1800)
+            if a[0] == 1 and b[0] == 1 and a[1] == b[1]:
+                with open(p) as f:
+                    rep = json.load(f)
+                rep["model"] = "recycled-instance" if "recycled" in rep.get("model", "") else "reuse-instance"
+                rep["what"] = (rep.get("what", "") + " — reproducible only as part of the single-threaded exploration of this model instance (the parser keeps state between calls)").strip()
+                with open(p, "w") as f:
+                    json.dump(rep, f, indent=1)
+                so2 = a[1]
+            else:
+                raise Machinery("history violation %s does not reproduce\n%s" % (p, so2))
         log(so2)
         with open(p) as f:
             what = json.load(f).get("what", "")
@@ -139,11 +153,7 @@ def lattice_points(quick):
     for std in (True, False):
         for cpu in ("cpu=x86-64-v2", "cpu=x86-64-v3", "cpu=native"):
             pts.append((std, False, False, cpu))
-    if quick:
-        keep = {(True, False, False, "cpu=x86-64-v3"), (False, False, False, "cpu=x86-64-v3"), (False, False, False, "cpu=native"),(True, False, False, ""), (True, False, False, "+sse4.2"), (True, False, False, "+avx2"),
-                (True, True, False, "+avx2"), (True, False, True, "+sse4.2,+avx2"), (False, False, False, ""),
-                (False, False, False, "+avx2"), (True, True, True, "")}
-        pts = [p for p in pts if p in keep]
+    # (every point is built in both tiers: an incremental build of the library takes about a second)
     return pts
 
 
@@ -192,7 +202,7 @@ def run_lattice(res, prop):
     res.samples.append({"build": "cargo build --lib with std=%s CARGO_CFG_HTTPARSE_DISABLE_SIMD=%s ..._COMPILETIME=%s target-feature=%r" % pts[1]})
     res.engines.append({"engine": "build lattice (cargo build --lib of /repo, one target dir per point, no hooks)",
                         "points": len(pts), "built": ok,
-                        "space": "std on/off x DISABLE_SIMD x DISABLE_SIMD_COMPILETIME x target-feature {none,+sse4.2,+avx2,+sse4.2,+avx2}, plus std on/off x target-cpu {x86-64-v2, x86-64-v3, native}" + (" (11 corner points)" if res.tier == "quick" else " (all 38)")})
+                        "space": "std on/off x DISABLE_SIMD x DISABLE_SIMD_COMPILETIME x target-feature {none,+sse4.2,+avx2,+sse4.2,+avx2}, plus std on/off x target-cpu {x86-64-v2, x86-64-v3, native}" + " (all 38 points)"})
 
 
 VARIANTS = {
@@ -650,7 +660,7 @@ def replay(rep, path):
     kind = rep.get("kind")
     if kind == "history":
         binary = check.cargo_build("histories", "release")
-        rc, so, se, _ = run([binary, "replay", path])
+        rc, so, se, _ = run([binary, "instance" if rep.get("model", "").endswith("-instance") else "replay", path], timeout=1800)
         print(so, end="")
         return rc
     if kind == "loom":
